@@ -14,6 +14,7 @@ import Nstd.Sha.Spec
      updatenull / hashnull / hmacnullkey <msg> / hmacnullmsg <key>
                       real side: the empty input is passed as (nullptr, 0); model side: the empty list
      setcount <n>     white box: `count = n` (n a multiple of 64 below 2^64; the buffer then holds nothing)
+  A digest line is `FAULT` when the model's ghost flag recorded an out-of-range array read.
   The observable is the digest; `update`/`rst` print `ok` only.
 -/
 open Nstd.Common
@@ -22,24 +23,35 @@ namespace Nstd.Sha
 def toBytes (l : List Nat) : List UInt8 := l.map UInt8.ofNat
 def hexOf (l : List UInt8) : String := toHex (l.map UInt8.toNat)
 
+/-- a digest, or `FAULT` when the model recorded an out-of-range array read -/
+def digestLine (ok : Bool) (d : List UInt8) : String := if ok then hexOf d else "FAULT"
+
+def hashLine (b : List UInt8) : String :=
+  let r := finalize (update init b)
+  digestLine r.2.ok r.1
+
+def hmacLine (k m : List UInt8) : String :=
+  let r := hmac k m
+  digestLine r.2 r.1
+
 def stepLine (st : Sha) (ws : List String) : Sha × String :=
   match ws with
   | ["reset"] => (init, "ok")
   | ["rst"] => (reset st, "ok")
-  | ["final"] => let r := finalize st; (r.2, hexOf r.1)
+  | ["final"] => let r := finalize st; (r.2, digestLine r.2.ok r.1)
   | ["setcount", n] =>
     match n.toNat? with
     | some n => if n % 64 = 0 ∧ n < 2 ^ 64 then ({ st with count := UInt64.ofNat n }, "ok") else (st, "bad-op")
     | none => (st, "bad-op")
   | ["updatenull"] => (update st [], "ok")
-  | ["hashnull"] => (st, hexOf (hash []))
+  | ["hashnull"] => (st, hashLine [])
   | ["hmacnullkey", m] =>
     match fromHex m with
-    | some m => (st, hexOf (hmac [] (toBytes m)))
+    | some m => (st, hmacLine [] (toBytes m))
     | none => (st, "bad-op")
   | ["hmacnullmsg", k] =>
     match fromHex k with
-    | some k => (st, hexOf (hmac (toBytes k) []))
+    | some k => (st, hmacLine (toBytes k) [])
     | none => (st, "bad-op")
   | ["update", d] =>
     match fromHex d with
@@ -47,7 +59,7 @@ def stepLine (st : Sha) (ws : List String) : Sha × String :=
     | none => (st, "bad-op")
   | ["hash", d] =>
     match fromHex d with
-    | some b => (st, hexOf (hash (toBytes b)))
+    | some b => (st, hashLine (toBytes b))
     | none => (st, "bad-op")
   | ["spec", d] =>
     match fromHex d with
@@ -55,7 +67,7 @@ def stepLine (st : Sha) (ws : List String) : Sha × String :=
     | none => (st, "bad-op")
   | ["hmac", k, m] =>
     match fromHex k, fromHex m with
-    | some k, some m => (st, hexOf (hmac (toBytes k) (toBytes m)))
+    | some k, some m => (st, hmacLine (toBytes k) (toBytes m))
     | _, _ => (st, "bad-op")
   | ["spechmac", k, m] =>
     match fromHex k, fromHex m with
